@@ -99,6 +99,14 @@ def judge_single(res, label, comp_cls, ck_name, pb, in_kind, wbase, id_for_nt):
             res.count(f"feature_removed:{label}:{f}")
         if set(ckind.features) != set(in_kind.features):
             res.count(f"kind_changed:{label}")
+    # degenerate input: a trajectory constraint / invariant that is unsatisfiable by itself (it, or its rewriting by the compiler,
+    # simplifies to the constant false; the model then records it as Always(false)). The kind of such a constant constraint is not
+    # something the statement constrains: counted, not judged.
+    em = pb.environment.expression_manager
+    unsat = [c for c in list(cp.trajectory_constraints) if c.is_always() and c.arg(0).is_false()]
+    if unsat and any(d.endswith(("STATE_INVARIANTS", "TRAJECTORY_CONSTRAINTS")) or "STATE_INVARIANTS" in d.split(",")[0] for _, d in viols):
+        res.count("dontcare:unsatisfiable-constant-constraint")
+        viols = [(c, d) for c, d in viols if "STATE_INVARIANTS" not in c and "TRAJECTORY_CONSTRAINTS" not in c]
     for cls, detail in viols:
         res.violation(
             cls,
